@@ -1,6 +1,7 @@
 //! srvsim — the real server on simulated byte streams with raw peers.
 
 pub mod batch;
+pub mod conns;
 pub mod httpframing;
 pub mod limits;
 pub mod model;
